@@ -136,6 +136,8 @@ type Machine struct {
 	clock     *sym.Term
 	rpc       map[*Value]*rpcServer
 	httpS     *httpSide
+	fs        map[string]*fsEnt
+	errNotExist Value
 }
 
 func (m *Machine) freshName(base string) string {
@@ -752,7 +754,18 @@ func (m *Machine) visitInstr(fr *frame, instr ssa.Instruction) continuation {
 		fr.env[instr] = m.conv(instr.Type(), instr.X.Type(), fr.get(instr.X))
 
 	case *ssa.SliceToArrayPointer:
-		m.unsupported("SliceToArrayPointer")
+		sl, _ := fr.get(instr.X).([]Value)
+		n := int(instr.Type().Underlying().(*types.Pointer).Elem().Underlying().(*types.Array).Len())
+		if len(sl) < n {
+			m.goPanicf("runtime error: cannot convert slice with length %d to array or pointer to array with length %d", len(sl), n)
+		}
+		p := new(Value)
+		if sl == nil {
+			p = nil
+		} else {
+			*p = Array(sl[:n:n]) // shares the backing array
+		}
+		fr.env[instr] = p
 
 	case *ssa.MakeInterface:
 		fr.env[instr] = Iface{T: instr.X.Type(), V: fr.get(instr.X)}
